@@ -103,7 +103,7 @@ func (b *c20Base) base() *c20Base { return b }
 
 func (b *c20Base) set(spec *Spec) {
 	b.name = spec.Name()
-	b.body = spec.ObjectSpec().(*c20Spec).Body
+	b.body = c20LogicalBody(spec)
 }
 
 type (
@@ -314,9 +314,24 @@ func c20KindName(i int) string {
 	return "VerifNope"
 }
 
+// The logical body 2 is written as the typed body 0 plus a non-default meta `version:` — so the histories contain
+// spec changes (0 <-> 2) that touch ONLY a meta field of the spec and leave the typed object spec equal (seeded change
+// C20-m7: an Equals that compares the typed specs only never inherits such a change).
+const c20AltVersion = "easegress.megaease.com/v1"
+
+func c20LogicalBody(spec *Spec) int {
+	if spec.Version() != DefaultSpecVersion {
+		return 2
+	}
+	return spec.ObjectSpec().(*c20Spec).Body
+}
+
 func c20Yaml(e c20Entry) string {
 	if e.Bad == 1 {
 		return "- just\n- a list\n"
+	}
+	if e.Body == 2 {
+		return fmt.Sprintf("name: %s\nkind: %s\nversion: %s\nbody: 0\n", c20Name(e.Name), c20KindName(e.Kind), c20AltVersion)
 	}
 	return fmt.Sprintf("name: %s\nkind: %s\nbody: %d\n", c20Name(e.Name), c20KindName(e.Kind), e.Body)
 }
@@ -370,8 +385,8 @@ func (t *c20Tags) ent(name string, e *ObjectEntity) c20Ent {
 		g = -1
 	}
 	body := -1
-	if s, ok := e.Spec().ObjectSpec().(*c20Spec); ok {
-		body = s.Body
+	if _, ok := e.Spec().ObjectSpec().(*c20Spec); ok {
+		body = c20LogicalBody(e.Spec())
 	}
 	return c20Ent{c20NameIdx(name), g, c20KindIdx(e.Spec().Kind()), body}
 }
